@@ -560,6 +560,7 @@ func hasKeyEv(e *ev, key string) bool {
 type facts struct {
 	kinds      map[string]bool
 	isData     bool // undef, bool, int, float, string, arrays and string-keyed hashes of those
+	isDataBin  bool // … allowing Binary too (it is handed over as it is to a consumer that can do binary)
 	reserved   bool // a hash whose keys are all strings and that has the key __ptype: re-interpreted by the deserializer
 	ptHashes   [][]string // key kinds of every hash that has the key __ptype
 	ptypeStr   bool // the string __ptype occurs as a hash key somewhere
@@ -585,6 +586,7 @@ func classify(n *node, f *facts, seen map[*node]bool, strs map[string]int) {
 	}
 	if n.kind == "o" || n.kind == "tdef" {
 		f.isData = false
+		f.isDataBin = false
 	}
 	if n.id >= 0 && (n.kind == "x" || n.kind == "l" || n.kind == "sn" || n.kind == "a" || n.kind == "h" || n.kind == "o" || n.kind == "tdef") {
 		if seen[n] {
@@ -594,8 +596,11 @@ func classify(n *node, f *facts, seen map[*node]bool, strs map[string]int) {
 		seen[n] = true
 	}
 	switch n.kind {
-	case "x", "l", "sn", "df":
+	case "x":
 		f.isData = false
+	case "l", "sn", "df":
+		f.isData = false
+		f.isDataBin = false
 	case "a":
 		f.containers++
 	case "h":
@@ -613,6 +618,7 @@ func classify(n *node, f *facts, seen map[*node]bool, strs map[string]int) {
 		}
 		if !all {
 			f.isData = false
+			f.isDataBin = false
 		}
 		if all && pt {
 			f.reserved = true
@@ -891,7 +897,7 @@ func exec(c px.Context, op string, args []sx.Sexp) (res core.Result) {
 
 func ser(c px.Context, o opts, cp caps, vs sx.Sexp) core.Result {
 	root := parse(vs, map[int64]*node{}, map[int64]bool{})
-	f := &facts{kinds: map[string]bool{}, isData: true}
+	f := &facts{kinds: map[string]bool{}, isData: true, isDataBin: true}
 	classify(root, f, map[*node]bool{}, map[string]int{})
 	tags := []string{}
 	for k := range f.kinds {
@@ -1043,7 +1049,7 @@ func ser(c px.Context, o opts, cp caps, vs sx.Sexp) core.Result {
 		}
 	}
 	// round trip
-	claimed := o.rich || f.isData
+	claimed := o.rich || f.isData || (f.isDataBin && cp.bin)
 	if derr != nil {
 		if f.reserved {
 			return fail(out, "reserved-key", "user hash with key __ptype is re-interpreted: "+oneLine(derr))
